@@ -1,7 +1,7 @@
 """Sidecar contracts for functions of /repo (never a copy of the code: pre/post/invariants only)."""
 import importlib
 
-MODULES = ["core_hypergraph", "utils"]
+MODULES = ["core_hypergraph", "core_dihypergraph", "utils"]
 
 
 def load_all():
